@@ -348,7 +348,18 @@ class World:
                 self.keep.append(self.cfgs[n])
                 self.cfgs[n] = new
             elif op == "Load":
-                cfg.load_tree(value_to_py(cinco, ev["tree"], None, self.root))
+                tree = value_to_py(cinco, ev["tree"], None, self.root)
+                # the document route and the tree route must behave alike: take them in turn
+                import json as _json
+
+                try:
+                    doc = _json.dumps(tree)
+                except (TypeError, ValueError):
+                    doc = None
+                if doc is not None and len(doc) % 2 == 0 and "NaN" not in doc and "Infinity" not in doc:
+                    cfg.loads(doc, "json")
+                else:
+                    cfg.load_tree(tree)
             elif op == "Reset":
                 cinco.reset_value(cfg, ".".join(list(seq(ev["p"])) + [ev["k"]]))
             elif op == "CopyTree":
